@@ -2232,3 +2232,125 @@ theorem c02_stacked_no_index_error (opa ns : ℝ) (L : Layout) (hwf : WellFormed
 theorem c02_stacked_index_error_pinned :
     keysOk (ParamLayout.nFloating c02_witness_layout)
       (ParamLayout.gpTable ParamLayout.gpidxFieldPinned c02_witness_layout 2 2) = false := by decide
+
+/-! ## Deepening round: the property for every parameter layout -/
+
+namespace C02
+
+/-- one (event, source) pair at the level of the *local* source parameters: factor A is a function of local
+parameter 0, factor B of local parameter 1; `dA`, `dB` their derivatives at the current local values -/
+structure LLeaf where
+  rA : ℝ → ℝ
+  rB : ℝ → ℝ
+  dA : ℝ
+  dB : ℝ
+
+/-- one dataset at the level of the local source parameters: per source `k` the yield `Y k` as a function of the two
+local parameter values with its Fréchet derivative `Y' k` at the current values, per event and source a leaf -/
+structure LDS where
+  N : ℕ
+  parA : Bool
+  parB : Bool
+  Y : ℕ → (Fin 2 → ℝ) → ℝ
+  Y' : ℕ → (Fin 2 → ℝ) →L[ℝ] ℝ
+  ev : List (ℕ → LLeaf)
+
+/-- the model input as a function of the moving fit parameter `t = θ_p`, built from the layout exactly as the code
+builds the local parameter values (`locVals`) -/
+noncomputable def LDS.toFDS (L : Layout) (fx : List ℝ) (dflt : Fin 2 → ℝ) (θ : List ℝ) (p K : ℕ) (d : LDS) : FDS where
+  N := d.N
+  parA := d.parA
+  parB := d.parB
+  rows := (List.range K).map (fun k =>
+    ((fun t => d.Y k (locVals L fx k dflt (θ.set p t))),
+      List.ofFn (fun n : Fin 2 => d.Y' k (fun j => if n = j then 1 else 0))))
+  ev := d.ev.map (fun e => (List.range K).map (fun k =>
+    (⟨fun t => (e k).rA (locVals L fx k dflt (θ.set p t) 0), fun t => (e k).rB (locVals L fx k dflt (θ.set p t) 1),
+      (e k).dA, (e k).dB⟩ : FLeaf)))
+
+/-- the sources of the model input: row `k` of the `<name>:gpidx` table the code builds, and the source weight -/
+def layoutSrcs (L : Layout) (K : ℕ) (Wf : ℕ → ℝ) : List (List ℤ × ℝ) :=
+  (List.range K).map (fun k => (List.ofFn (fun n : Fin 2 => gpidxField L k n), Wf k))
+
+theorem toFDS_honest (L : Layout) (fx : List ℝ) (dflt : Fin 2 → ℝ) (θ : List ℝ) (p K : ℕ) (hp : p < θ.length)
+    (Wf : ℕ → ℝ) (d : LDS)
+    (hY : ∀ k < K, HasFDerivAt (d.Y k) (d.Y' k) (locVals L fx k dflt θ))
+    (hL : ∀ e ∈ d.ev, ∀ k < K,
+      HasDerivAt (e k).rA (e k).dA (locVals L fx k dflt θ 0) ∧ HasDerivAt (e k).rB (e k).dB (locVals L fx k dflt θ 1) ∧
+      (d.parA = false → (e k).dA = 0) ∧ (d.parB = false → (e k).dB = 0)) :
+    (d.toFDS L fx dflt θ p K).Honest (layoutSrcs L K Wf) p θ[p] := by
+  refine ⟨by simp [LDS.toFDS, layoutSrcs], ?_, ?_⟩
+  · intro e he
+    simp only [LDS.toFDS, layoutSrcs, List.zip_map', List.mem_map, List.mem_range] at he
+    obtain ⟨k, hk, rfl⟩ := he
+    exact c02_layout_honest_yield L fx θ k p hp dflt (d.Y k) (d.Y' k) (hY k hk)
+  · intro row hrow
+    simp only [LDS.toFDS, List.mem_map] at hrow
+    obtain ⟨e, he, rfl⟩ := hrow
+    refine ⟨by simp [layoutSrcs], ?_⟩
+    intro x hx
+    simp only [layoutSrcs, List.zip_map', List.mem_map, List.mem_range] at hx
+    obtain ⟨k, hk, rfl⟩ := hx
+    obtain ⟨hA, hB, hpa, hpb⟩ := hL e he k hk
+    have h0 := c02_layout_honest_leaf L fx θ k p hp dflt 0 (e k).rA (e k).dA hA
+    have h1 := c02_layout_honest_leaf L fx θ k p hp dflt 1 (e k).rB (e k).dB hB
+    constructor
+    · refine hasDerivAt_of_eq h0 (fun y => rfl) ?_
+      by_cases hpA : d.parA = true
+      · simp [LDS.toFDS, hpA, List.getD_eq_getElem?_getD]
+      · simp [LDS.toFDS, hpA, hpa (by simpa using hpA)]
+    · refine hasDerivAt_of_eq h1 (fun y => rfl) ?_
+      by_cases hpB : d.parB = true
+      · simp [LDS.toFDS, hpB, List.getD_eq_getElem?_getD]
+      · simp [LDS.toFDS, hpB, hpb (by simpa using hpB)]
+
+end C02
+
+open C02 in
+/-- **THE PROPERTY, for every parameter layout** (no hypothesis on the layout at all): let the code build the local
+source parameter values from the fit-parameter values `θ` (`len θ = n_fitparams`) and the fixed values for an
+arbitrary layout `L`, let every yield be a differentiable function of its source's two local parameters and every
+ratio factor a differentiable function of one of them (a parameter-free factor has derivative `0`), and let the model
+be handed the *local* partial derivatives together with the `<name>:gpidx` table the code builds for `L`.  Then for
+every fit parameter `p ≠ ns_pidx` the entry `p` of the vector `Grad.stacked` returns exists and is the derivative of
+the value `Grad.stacked` returns w.r.t. `θ_p` (guards of the value as in `c02_stacked_entry_is_derivative`).
+With `c02_layout` (entry `p` ↔ the `p`-th floating parameter in declaration order), `c02_stacked_shape` (one entry per
+fit parameter) and `c02_stacked_ns_entry_is_derivative` (the ns entry) this is the property's first sentence for the
+model the driver runs. -/
+theorem c02_gradient_entry_for_every_layout (opa : ℝ) (h0 : 0 < opa) (ns : ℝ) (L : Layout) (fx θ : List ℝ)
+    (dflt : Fin 2 → ℝ) (K : ℕ) (Wf : ℕ → ℝ) (world : List LDS) (nsIdx p : ℕ)
+    (hns : nsIdx < θ.length) (hp : p < θ.length) (hne : p ≠ nsIdx)
+    (hW : ∀ d ∈ world, (∀ k < K, HasFDerivAt (d.Y k) (d.Y' k) (locVals L fx k dflt θ)) ∧
+      ∀ e ∈ d.ev, ∀ k < K,
+        HasDerivAt (e k).rA (e k).dA (locVals L fx k dflt θ 0) ∧
+        HasDerivAt (e k).rB (e k).dB (locVals L fx k dflt θ 1) ∧
+        (d.parA = false → (e k).dA = 0) ∧ (d.parB = false → (e k).dB = 0))
+    (hA : total (stA ((layoutSrcs L K Wf).map (·.2))
+      ((world.map (LDS.toFDS L fx dflt θ p K)).map (fun d => d.at θ[p]))) ≠ 0)
+    (hG : ∀ d ∈ world.map (LDS.toFDS L fx dflt θ p K), d.N ≠ 0 ∧
+      ns * fjRow (stA ((layoutSrcs L K Wf).map (·.2)) ((world.map (LDS.toFDS L fx dflt θ p K)).map (fun d => d.at θ[p])))
+        (aRow ((layoutSrcs L K Wf).map (·.2)) (d.rows.map (fun r => r.1 θ[p]))) < d.N ∧
+      (d.ev ≠ [] → 0 < sumF (aRow ((layoutSrcs L K Wf).map (·.2)) (d.rows.map (fun r => r.1 θ[p]))))) :
+    ∃ g, (stacked opa ns θ.length nsIdx ((layoutSrcs L K Wf).map (·.1)) ((layoutSrcs L K Wf).map (·.2))
+        ((world.map (LDS.toFDS L fx dflt θ p K)).map (fun d => d.at θ[p]))).grads[p]? = some g ∧
+      HasDerivAt (fun t => (stacked opa ns θ.length nsIdx ((layoutSrcs L K Wf).map (·.1))
+        ((layoutSrcs L K Wf).map (·.2)) ((world.map (LDS.toFDS L fx dflt θ p K)).map (fun d => d.at t))).value) g θ[p] := by
+  refine c02_stacked_entry_is_derivative opa h0 ns θ[p] (layoutSrcs L K Wf) ?_
+    (world.map (LDS.toFDS L fx dflt θ p K)) θ.length nsIdx p hns hp hne ?_ hA hG
+  · intro s hs
+    simp only [layoutSrcs, List.mem_map, List.mem_range] at hs
+    obtain ⟨k, _, rfl⟩ := hs
+    simp
+  · intro d hd
+    simp only [List.mem_map] at hd
+    obtain ⟨w, hw, rfl⟩ := hd
+    exact toFDS_honest L fx dflt θ p K hp Wf w (hW w hw).1 (hW w hw).2
+
+-- non-vacuity of the world hypotheses `hW`: a yield that is the first local parameter itself, a factor A `rA(v) = v²`,
+-- a parameter-free factor B
+example (v : Fin 2 → ℝ) :
+    HasFDerivAt (fun w : Fin 2 → ℝ => w 0) (ContinuousLinearMap.proj (R := ℝ) (φ := fun _ : Fin 2 => ℝ) 0) v ∧
+    HasDerivAt (fun x : ℝ => x * x) (v 0 + v 0) (v 0) ∧ HasDerivAt (fun _ : ℝ => (3 : ℝ)) 0 (v 1) := by
+  refine ⟨(ContinuousLinearMap.proj (R := ℝ) (φ := fun _ : Fin 2 => ℝ) 0).hasFDerivAt, ?_, hasDerivAt_const _ _⟩
+  have := (hasDerivAt_id (v 0)).mul (hasDerivAt_id (v 0))
+  exact C02.hasDerivAt_of_eq this (fun y => rfl) (by simp)
